@@ -214,6 +214,8 @@ def run(rep, facts, tier):
         ok = any(callee_res(t).endswith('::get') and any(ogx.of_operand(a, bb, 'term')[0] == 'param' for a in t['args'][1:]) for bb, t in x.calls())
         rep.check(ok, 'R15.3', '%s/by-id' % g, 'looks the parameter up by id in the map', '%s does not look its parameter up by id' % g, x.where())
 
+    rule_15_7(rep, facts['default'])
+
     # ------------------------------------------------------------ R15.6 crossed roles (shared lint, rdv/swaplint.py)
     from rdv import swaplint
     swaplint.run_rule(rep, facts['default'], 'R15.6', ['discovery::', 'dds::qos', 'serialization::', 'messages::submessages::elements::parameter'])
@@ -303,3 +305,81 @@ def rule_15_5(rep, fx, cfg):
                       '%s: %s is written from %s but read into %s: the value lands in another field, the data does not survive although every parameter is read with the '
                       'right id and type' % (short, pid, sorted(src), sorted(set(f for f, _w in dests))), dests[0][1])
     return n
+
+
+PID_ADT = 'structure::parameter_id::ParameterId'
+
+
+def _pure_copy(t):
+    """The term is a plain copy chain (fields, derefs, refs, variant views, `?` continuations) with no arithmetic, no constant and no call other than the reads it ends in."""
+    return not term_has(t, lambda x: x[0] in ('bin', 'un', 'cast', 'const', 'phi', 'unknown', 'index'))
+
+
+def rule_15_7(rep, fx):
+    """A parameter is identified by its full 16-bit id: the vendor-specific (0x8000) and must-understand (0x4000) bits are part of the id space (RTPS 9.6.2.2.1), so a
+    vendor parameter 0x8002 is not PID_PARTICIPANT_LEASE_DURATION 0x0002. Nothing between the wire and the lookup may transform the id."""
+    rep.rule('R15.7', 'parameter identity: the id read from the wire reaches the lookup map untransformed (ParameterId::read_from, Parameter::read_from, ParameterList::to_map key = '
+                      'p.parameter_id, get_*_from_pl_map look up the id they are given), ParameterId derives Eq/Ord over its one u16 field, and the id is written back untransformed; '
+                      'so an unknown or vendor-specific parameter can never be filed under a known id')
+    og0 = lambda b: Origins(b, transparent=True, summaries=False)
+    # 1. ParameterId codec: value <- read_value, write_value(value)
+    rd = [b for b in fx.bodies if b.name == 'read_from' and strip_generics(b.impl_self or '') == PID_ADT]
+    wr = [b for b in fx.bodies if b.name == 'write_to' and strip_generics(b.impl_self or '') == PID_ADT]
+    if len(rd) != 1 or len(wr) != 1:
+        raise CheckBroken('ParameterId read_from/write_to not found (%d/%d)' % (len(rd), len(wr)))
+    for b, what in ((rd[0], 'read'), (wr[0], 'write')):
+        rep.analysed(b)
+        arith = [(bb, si) for bb, si, st in b.statements() if st['s'] == 'assign' and st['rv']['r'] in ('bin', 'un', 'cast')]
+        calls = [callee_res(t).rsplit('::', 1)[-1] for _bb, t in b.calls() if callee_res(t).rsplit('::', 1)[-1] not in ('branch', 'from_residual')]
+        ok = not arith and calls in (['read_value'], ['read_u16'], ['write_value'], ['write_u16'])
+        rep.check(ok, 'R15.7', 'ParameterId/%s' % what, 'one 16-bit %s, no arithmetic' % what, 'ParameterId::%s transforms the id (%s, %d arithmetic statements)' % (b.name, calls, len(arith)), b.where())
+    # 2. Parameter::read_from keeps the id it read
+    prd = [b for b in fx.bodies if b.name == 'read_from' and strip_generics(b.impl_self or '').endswith('elements::parameter::Parameter')]
+    if len(prd) != 1:
+        raise CheckBroken('Parameter::read_from not found')
+    b = prd[0]
+    rep.analysed(b)
+    og = og0(b)
+    okp = False
+    for bb, si, st in b.statements():
+        if st['s'] == 'assign' and st['rv']['r'] == 'agg' and (st['rv'].get('fields') or []) and 'parameter_id' in st['rv']['fields']:
+            v = og.of_operand(st['rv']['ops'][st['rv']['fields'].index('parameter_id')], bb, si)
+            okp = _pure_copy(v) and term_has(v, lambda x: x[0] == 'call' and x[1].endswith('read_value'))
+    rep.check(okp, 'R15.7', 'Parameter::read_from/id', 'parameter_id = the value read, unchanged', 'Parameter::read_from does not store the id exactly as read', b.where())
+    # 3. the lookup map is keyed by p.parameter_id and holds p
+    tm = fx.find('messages::submessages::elements::parameter_list::ParameterList::to_map')
+    n_entry = 0
+    for b in [tm] + fx.closures_of(tm):
+        rep.analysed(b)
+        og = og0(b)
+        for bb, t in b.calls():
+            cr = callee_res(t)
+            if cr.endswith(('BTreeMap::<K, V, A>::entry', 'BTreeMap::<K, V, A>::insert')):
+                n_entry += 1
+                k = og.of_operand(t['args'][1], bb, 'term')
+                ok = _pure_copy(k) and not term_has(k, lambda x: x[0] == 'call') and k[0] == 'field' and k[1] == 'parameter_id'
+                rep.check(ok, 'R15.7', 'ParameterList::to_map/key', 'map key = p.parameter_id (plain copy)',
+                          'ParameterList::to_map files a parameter under a key that is not its own parameter_id unchanged (%s): ids that differ only in the vendor / must-understand '
+                          'bits collide, and an unknown parameter is taken for a known one' % term_str(k)[:120], b.where(bb))
+    rep.floor('R15.7', n_entry, 1, 'map insertions in ParameterList::to_map')
+    # 4. the key type compares the whole id
+    for tr in ('std::cmp::PartialEq', 'std::cmp::Ord', 'std::cmp::PartialOrd'):
+        im = [i for i in fx.impls if strip_generics(i.get('self_ty') or '') == PID_ADT and i.get('trait_def') == tr]
+        rep.check(len(im) == 1 and bool(im[0].get('derived')), 'R15.7', 'ParameterId/%s-derived' % tr.rsplit('::', 1)[-1], 'derived over the single u16 field',
+                  'ParameterId no longer derives %s: map lookups compare whatever the hand-written impl compares' % tr, '')
+    adt = fx.adt(PID_ADT)
+    flds = [f['name'] if isinstance(f, dict) else f for f in (adt['variants'][0]['fields'] if adt and adt.get('variants') else [])]
+    rep.check(flds == ['value'], 'R15.7', 'ParameterId/fields', 'one field `value`', 'ParameterId has fields %s' % flds, '')
+    # 5. the getters look up exactly the id handed to them
+    for g in ('get_first_from_pl_map', 'get_option_from_pl_map', 'get_all_from_pl_map'):
+        x = [y for y in fx.bodies if y.name == g][0]
+        ogx = og0(x)
+        gets = [(bb, t) for bb, t in x.calls() if callee_res(t).endswith('BTreeMap::<K, V, A>::get')]
+        ok = len(gets) >= 1 and all(_strip_refs(ogx.of_operand(t['args'][1], bb, 'term'))[0] == 'param' for bb, t in gets)
+        rep.check(ok, 'R15.7', '%s/key' % g, 'map.get(&pid) with the pid parameter itself', '%s does not look up exactly the id it is given' % g, x.where())
+
+
+def _strip_refs(t):
+    while isinstance(t, tuple) and t and t[0] in ('ref', 'deref') and len(t) > 1 and isinstance(t[1], tuple):
+        t = t[1]
+    return t
